@@ -209,6 +209,29 @@ def rule(V, R, opt, mk, v, h, nf, same, **kw):
     return check_grammar(g, opt, _markov(mk, v, h, nf), ["A"])
 
 
+def flat(rank, opt, mk, v, h, nf, same, **kw):
+    """a rule whose right-hand side has `rank` elements, each used once, with symbolic argument cuts"""
+    cuts = [kw["c%d" % i] for i in range(1, rank)]
+    lin = mk_lin(list(range(rank)), cuts)
+    syms = ["B0", "B1", "B2", "B3", "B4", "B5"]
+    if same:
+        syms = ["B", "B", "B", "C", "C", "B"]
+    func = tuple(["A"] + syms[:rank])
+    g = {func: {lin: {("A%d" % len(lin), "S1"): 2}}}
+    return check_grammar(g, opt, _markov(mk, v, h, nf), ["A"])
+
+
+def twotrees(m, n, opt, mk, v, h, nf, **kw):
+    """grammar extracted from two different trees over the same labels (same productions with different gap patterns)"""
+    g, lex = {}, {}
+    for pre in ("a", "b"):
+        ip = [kw["%sip%d" % (pre, i)] for i in range(1, m)]
+        lp = [kw["%slp%d" % (pre, j)] for j in range(1, n + 1)]
+        nodes, leaves = build_e1(m, n, ip, lp, labels=["R", "X", "X", "Y"][:m], pos=["P", "P", "Q", "P", "Q"][:n])
+        grammar.extract(nodes[0], g, lex)
+    return check_grammar(g, opt, _markov(mk, v, h, nf), ["R"])
+
+
 def canon(R, *a):
     V = (len(a) + 1) // 2
     return canonical(list(a[:V]), list(a[V:]), R)
@@ -263,7 +286,23 @@ def conds(tier):
         cs.append(Cond("rule-V%d-%s" % (V, "markov" if mk else "det"), "harness.c07:rule", ps, fixed=fixed,
                        pre=["r1 == 0", "_h.canon(%d, %s)" % (R, names)] + (["not same"] if V < 3 else []),
                        shard=sh, skip=_noncanon, timeout=600 if q else 3000, functions=FUNCS[:8]))
-    for (m, n) in ([(2, 3), (2, 4)] if q else [(2, 3), (2, 4), (3, 4), (2, 5), (3, 5)]):
+    for rank in (5, 6):
+        ps = [P("c%d" % i, "bool") for i in range(1, rank)] + [P("opt", "bool"), P("same", "bool"), P("mk", "bool"),
+                                                              P("v", "int", 0, 2), P("h", "int", 0, 3), P("nf", "bool")]
+        cs.append(Cond("flat-rank%d" % rank, "harness.c07:flat", ps, fixed={"rank": rank},
+                       pre=["mk or (v == 0 and h == 0 and not nf)"] + (["not nf and (not mk or v == 1)"] if q else []),
+                       shard=["opt", "mk"] + ([] if q else ["h"]), timeout=600 if q else 3000, functions=FUNCS[:8],
+                       note="right-hand sides with %d elements" % rank))
+    for (m, n) in [(2, 3), (2, 4)]:
+        from harness.symtree import e1_wf_expr as _wfe
+        ps = e1_params(m, n, "a") + e1_params(m, n, "b") + [P("opt", "bool"), P("mk", "bool"), P("v", "int", 0, 2), P("h", "int", 0, 2 if q else 3), P("nf", "bool")]
+        cs.append(Cond("twotrees-m%d-n%d" % (m, n), "harness.c07:twotrees", ps, fixed={"m": m, "n": n},
+                       pre=[_wfe(m, n, "a"), _wfe(m, n, "b"), "mk or (v == 0 and h == 0 and not nf)"] +
+                       (["mk and v == 0 and not nf"] if (q and n >= 4) else []), shard=["opt", "mk"] + (["alp1", "alp2"] if n >= 4 else []),
+                       skip=(lambda sf: not sf["mk"]) if (q and n >= 4) else None,
+                       timeout=600 if q else 3000, functions=FUNCS,
+                       note="two symbolic trees over the same labels extracted into one grammar"))
+    for (m, n) in ([(1, 5), (2, 3), (2, 4)] if q else [(1, 5), (1, 6), (2, 3), (2, 4), (3, 4), (2, 5), (3, 5)]):
         ps = e1_params(m, n) + [P("opt", "bool"), P("mk", "bool"), P("v", "int", 0, 2 if q else 3), P("h", "int", 0, 2 if q else 3), P("nf", "bool")]
         cs.append(Cond("fromtree-m%d-n%d" % (m, n), "harness.c07:fromtree", ps, fixed={"m": m, "n": n},
                        pre=[e1_wf_expr(m, n), "mk or (v == 0 and h == 0 and not nf)"], shard=["opt", "mk"] + (["lp1"] if m ** n >= 60 else []) +
